@@ -537,6 +537,14 @@ int main(void)
 				if (!mpt_array_set(&refarr, tr, n * sizeof(*tmp), refarr._buf + 1, 0)) { result("refused", "0"); continue; }
 				result("ok", "0");
 			}
+			else if (!strcmp(drv_w[2], "raw") && drv_nw == 4) {
+				/* the handle is re-used as a raw buffer (no element type): the references it held are released */
+				if (!refarr._buf || drv_parse_nat(drv_w[3], &n) || n > 4096) { puts("bad-op"); continue; }
+				if (!mpt_array_reserve(&refarr, n, 0)) { result("refused", "0"); continue; }
+				mpt_array_clone(&refarr, 0);
+				refarr_n = 0;
+				result("ok", "0");
+			}
 			else if (!strcmp(drv_w[2], "drop") && drv_nw == 3) {
 				if (!refarr._buf) { puts("bad-op"); continue; }
 				mpt_array_clone(&refarr, 0);
